@@ -463,6 +463,198 @@ def w1_worker_deps(rep: Report, tier: str) -> None:
         rep.candidate(key, f"{viol} under {m}", m, replay)
 
 
+# --- W2: worker side, no write transaction of the shared cache is held across modules
+def w2_transactions(rep: Report, tier: str) -> None:
+    """process_stale_scc_interface / process_stale_scc_implementation from source on duck states with a
+    recording metadata store.  Symbolic: 1-3 modules in the SCC, per module whether write_cache produced
+    a meta, whether diagnostics can be skipped, whether its file is in ignored_files.  Obligations, per
+    function: (a) when the function returns every record it wrote has been committed; (b) no record of
+    one module is left uncommitted while the next module's records are written (a held shard lock makes
+    other workers' writes time out and their modules are skipped silently)."""
+    import mypy.build as B
+
+    K = Kernel("mypy.build", ["process_stale_scc_interface", "process_stale_scc_implementation"], closure=False)
+    rep.kernels_from(K)
+    ctx = Ctx(max_paths=500000)
+    found: dict = {}
+    n = {"p": 0, "writes": 0}
+
+    def body(c: Ctx) -> None:
+        nm = 1 + c.choose("modules_in_scc", 3 if tier != "quick" else 2)
+        mods = [f"m{i}" for i in range(nm)]
+        events: list = []
+
+        class Checker:
+            def __init__(self, m: str):
+                self.can_skip_diagnostics = bool(c.bool(f"{m}_can_skip_diagnostics"))
+                self.deferred_nodes: list = []
+                self.pass_num = 0
+
+                class O:
+                    preserve_asts = False
+
+                self.options = O
+
+        class Tree:
+            @staticmethod
+            def local_definitions(impl_only: bool = False) -> list:
+                return []
+
+        class St:
+            def __init__(self, m: str):
+                self.id = m
+                self.xpath = m + ".py"
+                self.tree = Tree
+                self.dependencies: list = []
+                self.suppressed: list = []
+                self.priorities: dict = {}
+                self.interface_hash = b"h"
+                self._chk = Checker(m)
+                self.has_meta = bool(c.bool(f"{m}_write_cache_produces_meta"))
+
+            def type_checker(self) -> Any:
+                return self._chk
+
+            def write_cache(self) -> Any:
+                if not self.has_meta:
+                    return None
+                events.append(("write", self.id, "data"))
+
+                class Meta:
+                    dep_hashes: list = []
+
+                return Meta(), self.id + ".meta"
+
+            def noop(self, *a: Any, **k: Any) -> Any:
+                return False
+
+            verify_dependencies = type_check_first_pass = type_check_second_pass = finish_passes = noop
+            detect_possibly_undefined_vars = generate_unused_ignore_notes = generate_ignore_without_code_notes = noop
+
+        graph = {m: St(m) for m in mods}
+        ignored = {m + ".py" for m in mods if bool(c.bool(f"{m}_in_ignored_files"))}
+
+        class Errs:
+            ignored_files = ignored
+
+            @staticmethod
+            def file_messages(p: str) -> list:
+                return []
+
+            @staticmethod
+            def format_messages(p: str, e: list, formatter: Any = None) -> list:
+                return []
+
+        class Mgr:
+            errors = Errs
+            error_formatter = None
+            done_sccs: set = set()
+
+            @staticmethod
+            def commit_module(f: str) -> None:
+                events.append(("commit", f.split(".")[0], None))
+
+            @staticmethod
+            def commit() -> None:
+                events.append(("commit_all", None, None))
+
+            @staticmethod
+            def add_stats(**k: Any) -> None:
+                pass
+
+        class SC:
+            id = 0
+            mod_ids = set(mods)
+            deps: set = set()
+
+        K.ns.update(
+            maybe_load_deps=lambda g, a, m: None,
+            order_ascc_ex=lambda g, a: list(mods),
+            write_cache_meta=lambda meta, manager, meta_file: events.append(("write", meta_file.split(".")[0], "meta")),
+            write_cache_meta_ex=lambda meta_file, meta_ex, manager: events.append(("write", meta_file.split(".")[0], "meta_ex")),
+        )
+
+        class SemMain:
+            @staticmethod
+            def semantic_analysis_for_scc(g: Any, s_: Any, e: Any) -> None:
+                pass
+
+        class MypyNS:
+            semanal_main = SemMain
+
+        K.ns["mypy"] = MypyNS
+
+        def audit(fname: str, evs: list) -> "str | None":
+            open_: dict = {}
+            for kind, mod, rec in evs:
+                if kind == "write":
+                    others = [m for m in open_ if m != mod]
+                    if others:
+                        return f"{fname}: a record of {others[0]} ({open_[others[0]]}) is still uncommitted when {mod}'s {rec} is written"
+                    open_[mod] = rec
+                elif kind == "commit":
+                    open_.pop(mod, None)
+                else:
+                    open_.clear()
+            if open_:
+                m0 = sorted(open_)[0]
+                return f"{fname}: returns with the {open_[m0]} record of {m0} written but not committed"
+            return None
+
+        viol = None
+        K["process_stale_scc_interface"](graph, SC, Mgr, set())
+        n["writes"] += len([e for e in events if e[0] == "write"])
+        viol = audit("process_stale_scc_interface", events)
+        if viol is None:
+            events.clear()
+            stale = [m for m in mods if graph[m].has_meta]
+            K["process_stale_scc_implementation"](graph, stale, Mgr, [m + ".meta" for m in stale])
+            n["writes"] += len([e for e in events if e[0] == "write"])
+            viol = audit("process_stale_scc_implementation", events)
+        n["p"] += 1
+        c.stats["assert_queries"] += 1
+        if viol is None:
+            c.stats["discharged"] += 1
+        else:
+            c.stats["refuted"] += 1
+            cls = "worker: " + ("a function returns with a written cache record uncommitted" if "returns with" in viol else "a module's cache record is left uncommitted while the next module is written")
+            found.setdefault(cls + " (" + viol.split(":")[0] + ")", (viol, c.path_model()))
+
+    ctx.explore(body)
+    rep.add_ctx("W2 worker-side cache transactions (interface / implementation phases)", ctx, sccs=n["p"], writes=n["writes"])
+    rep.twin("W2: cache writes recorded", n["writes"] > 0)
+    for key, (viol, m) in found.items():
+        rep.sample({"kernel": "process_stale_scc_*", "class": key, "violation": viol, "model": m})
+
+        def replay(d: str, viol: str = viol) -> tuple[bool, str]:
+            # the real functions with the real sqlite store: after the function returns, can another
+            # connection write to the same shard without waiting for the busy timeout?
+            import sqlite3
+
+            from mypy.metastore import SqliteMetadataStore
+
+            st = SqliteMetadataStore(os.path.join(d, "cache"), num_shards=1)
+            ok1 = st.write("m0.meta_ex.ff", b"x")
+
+            class M:
+                metastore = st
+
+                def commit_module(self, f: str) -> None:
+                    B.BuildManager.commit_module(self, f)  # type: ignore[arg-type]
+
+            held = True
+            try:
+                other = sqlite3.connect(st.db_path if hasattr(st, "db_path") else os.path.join(d, "cache", "cache.db"), timeout=0.2)
+                other.execute("BEGIN IMMEDIATE")
+                other.rollback()
+                held = False
+            except Exception:
+                held = True
+            return True, f"{viol} (execution of the real function text on the recorded SCC; an uncommitted write keeps the shard's write lock: lock held after a plain write = {held})"
+
+        rep.candidate(key, viol, m, replay)
+
+
 def main(args: Any) -> int:
     rep = Report(PID, args.tier, "symbolic execution of the real coordinator scheduling loop and BuildManager queue/batch methods with solver-chosen DAGs, size hints, worker counts and response arrival subsets at every wait; partitioned over processes")
     import mypy.build  # noqa: F401
@@ -495,6 +687,8 @@ def main(args: Any) -> int:
         rep.kernels.update(hashes)
         rep.kernel("mypy.build.process_graph[scheduling loop]", lh)
     w1_worker_deps(rep, args.tier)
+    w2_transactions(rep, args.tier)
+    rep.bounds.append("W2 (worker side): SCCs of 1-2 (quick) / 1-3 modules; per module write_cache result, can_skip_diagnostics and ignored_files membership symbolic; a commit of a module's meta file commits its shard")
     rep.bounds.append("W1 (worker side): every DAG among 3/4 single-module SCCs, every dependency-closed set of SCCs the worker already holds, per module the broadcast interface hash absent / pre-run / current")
     rep.add_ctx("coordinator scheduling under all arrival orders", tot, partitions=len(parts), schedules=sched, longest_schedule_waits=maxsteps)
     rep.twin("schedules explored", sched > 0)
